@@ -24,7 +24,7 @@ RULE = ("A case is (pair, options, printer config {quiet, colour}, history). The
         "drawn from the pool (initially the root edit). Generated: up to 30 (quick) / 80 (thorough) operations with rule "
         "weights favouring refinement bursts, over C01 pairs and a nested-list generator (lists of lists of lists). "
         "Bounded exhaustive: for 40 fixed small pairs all sequences of the five root operations up to length 4 (quick) / "
-        "5 (thorough). History-free sub-check: diff(), edited_cost(), get_all_edits() under every printer configuration. "
+        "5 (thorough). History-free sub-check: diff(), edited_cost(), get_all_edits() under every printer configuration, and their totals against the canonical driver's final cost. "
         "Oracle: no exception escapes any operation; after finishing with the canonical driver the final cost and the "
         "script signature equal those of a fresh copy refined by the canonical driver under the default printer. "
         "Non-trivial: a history with >= 2 consecutive refinements without a read, or edits() before completion, on an "
@@ -202,6 +202,11 @@ def check(case):
             ec = d.edited_cost()
             p2 = Problems()
             drec = walk(d.edit_list[0], p2) if d.edit_list else None
+        if ref_cost is not None and ref_ec != ref_cost:
+            out.fail('driver-changes-cost:diff', f"diff().edited_cost() is {ref_ec}, the edit refined by the canonical driver costs {ref_cost}")
+        if ref_cost is not None and sum(k[2] * n for k, n in ref_flat.items()) != ref_cost:
+            out.fail('driver-changes-cost:get_all_edits', f"the edits listed by get_all_edits() cost {sum(k[2] * n for k, n in ref_flat.items())} "
+                                                          f"in total, the edit refined by the canonical driver costs {ref_cost}")
         if ec != ref_ec:
             out.fail('printer-setting-changes-cost', f"diff().edited_cost() is {ec} with quiet={quiet} colour={color}, {ref_ec} with the default printer")
         elif drec is not None and signature(drec) != ref_sig:
